@@ -1,6 +1,10 @@
 package main
 
-import "go/types"
+import (
+	"go/types"
+	"os"
+	"path/filepath"
+)
 
 func structOfType(t types.Type) *types.Struct {
 	s, _ := deref(t).Underlying().(*types.Struct)
@@ -10,4 +14,18 @@ func structOfType(t types.Type) *types.Struct {
 func mapOf(t types.Type) *types.Map {
 	m, _ := t.Underlying().(*types.Map)
 	return m
+}
+
+func outDir() string {
+	if d := os.Getenv("VERIF_OUT_DIR"); d != "" {
+		return d
+	}
+	return filepath.Join(verifDir, "out")
+}
+
+func evidenceDir() string {
+	if d := os.Getenv("VERIF_EVIDENCE_DIR"); d != "" {
+		return d
+	}
+	return filepath.Join(verifDir, "evidence")
 }
